@@ -159,15 +159,19 @@ func TestC10_SlowConsumers(t *testing.T) {
 		}
 		// 3. the stream
 		total := rapid.IntRange(0, 4*kcache.EventBufsiz).Draw(t, "events")
-		// now and then a very long stream (up to 150 buffers, 600 in the thorough tier; its events come
+		// now and then a very long stream (up to 150 buffers; its events come
 		// from a seeded sequence, not from thousands of draws): however long a consumer stays away, it
 		// is merely behind - still subscribed, its buffer still delivered, fresh events still reaching it
 		long := false
 		var lcg uint64
-		if rapid.IntRange(0, 19).Draw(t, "longStream") == 0 {
+		longEvery := 20
+		if tierThorough() {
+			longEvery = 40 // (cases are 25 times as many there, and a long stream with slow consumers takes seconds)
+		}
+		if rapid.IntRange(0, longEvery-1).Draw(t, "longStream") == 0 {
 			sizes := []int{5, 12, 30, 60, 110, 150}
-			if tierThorough() {
-				sizes = append(sizes, 300, 600)
+			if n := envInt("VERIF_C10_LONGBUFFERS", 0); n > 0 {
+				sizes = append(sizes, n) // development aid: larger sizes are not part of the registered runs (DESIGN 10.19)
 			}
 			total = kcache.EventBufsiz * rapid.SampledFrom(sizes).Draw(t, "longBuffers")
 			long = true
@@ -279,7 +283,7 @@ func TestC10_SlowConsumers(t *testing.T) {
 		// 4. healthy nodes: the root witness holds the reference stream; healthy siblings agree
 		rootLog := renderEvs(w.nodes[0].eventsFrom(rootBase))
 		if !sameStrings(rootLog, ref) {
-			w.fail("the controller's healthy subscriber did not receive the published sequence while %d consumers were stalled: got %d events, published %d; tails %v vs %v", len(victims), len(rootLog), len(ref), tail(rootLog, 5), tail(ref, 5))
+			w.fail("the controller's healthy subscriber did not receive the published sequence while %d consumers were stalled: got %d events, published %d; first difference at %d; tails %v vs %v (buffer overruns logged: %d, watcher drops logged: %d)", len(victims), len(rootLog), len(ref), firstDiffIndex(rootLog, ref), tail(rootLog, 5), tail(ref, 5), w.plog.Overruns(), w.plog.WatchDrops())
 		}
 		isVictim := map[*node]bool{}
 		for _, v := range victims {
@@ -460,6 +464,6 @@ func TestC10_SlowConsumers(t *testing.T) {
 		}
 		statCase("C10", hashString(strings.Join(w.hist, ";")), nt, func() interface{} {
 			return map[string]interface{}{"nodes": len(w.nodes), "stalled": vkinds, "events": total, "history_head": hist}
-		}, fmt.Sprintf("refiltered_a_stalled_filtered_subscription=%v", refilteredStalled), fmt.Sprintf("stalled=%d", min(len(victims), 3)), fmt.Sprintf("partial_resume_after_overflow=%v", partial), fmt.Sprintf("resumed_while_events_kept_coming=%v", underLoad), fmt.Sprintf("stream_over_buffer=%v", total > kcache.EventBufsiz), fmt.Sprintf("closed_a_stalled_subscriber_mid_burst=%v", closedVictim), fmt.Sprintf("long_stream_of_5_to_600_buffers=%v", long), "typed_tree="+cfg.typed)
+		}, fmt.Sprintf("refiltered_a_stalled_filtered_subscription=%v", refilteredStalled), fmt.Sprintf("stalled=%d", min(len(victims), 3)), fmt.Sprintf("partial_resume_after_overflow=%v", partial), fmt.Sprintf("resumed_while_events_kept_coming=%v", underLoad), fmt.Sprintf("stream_over_buffer=%v", total > kcache.EventBufsiz), fmt.Sprintf("closed_a_stalled_subscriber_mid_burst=%v", closedVictim), fmt.Sprintf("long_stream_of_5_to_150_buffers=%v", long), "typed_tree="+cfg.typed)
 	})
 }
